@@ -81,9 +81,9 @@ def extracted_wrr_run(repo):
 # ---- WFQ.run (C14): coq/Gen/Extracted_wfq_run.v, bridged by coq/Elem/WFQRunBridge.v, obligations Props/C14_BridgeRunWFQ.v ----
 WFQ_RUN_READS = [("self.flow2class(packet.flow_id)", "class_id", "Z"),
                  ("self.env.now", "now", "Q"), ("env.now", "now", "Q"),
-                 # len(self.active_set) where run() tests it: AFTER the removal of the class whose count reached 0 (the set is
-                 # not a state field of the translation; the bridge instantiates this with the length of the model's set then)
-                 ("self.active_set", "n_active_after", "len")]
+                 # len(self.active_set) when run() resumes; `self.active_set.remove(c)` makes it one less for what follows
+                 ("self.active_set", "n_active", "len")]
+WFQ_RUN_LEN_EFFECTS = {"n_active": {"FxActiveRemove": -1}}
 WFQ_RUN_FX = SRV_FX + [("self.active_set.remove(_1)", "FxActiveRemove", ["Z"])]
 WFQ_RUN_FX_CONS = SRV_FX_CONS + [("FxActiveRemove", "(c : Z)")]
 
@@ -93,6 +93,7 @@ def extracted_wfq_run(repo):
     from props import part_wfq as pw
     spec = tg.GenSpec(os.path.join(repo, "onl", "scheduler", "wfq.py"), "WFQ", "run", "gen_WFQ_run", reads=WFQ_RUN_READS,
                       effects=WFQ_RUN_FX, requests=SRV_REQUESTS, objects=["item", "packet"], binds={"FxUnwrap": "packet"},
-                      stateops=pw.WFQ_STATEOPS, bindings=pw.WFQ_BINDINGS, inline=["update_vtime", "reset_vtime"])
+                      stateops=pw.WFQ_STATEOPS, bindings=pw.WFQ_BINDINGS, inline=["update_vtime", "reset_vtime"],
+                      len_effects=WFQ_RUN_LEN_EFFECTS)
     return tg.gen_run_module("onl/scheduler/wfq.py: WFQ.run (update_vtime / reset_vtime in place)", spec, pw.WFQ_STATE,
                              "wfq_run_st", "wr_", "wfq_run_fx", WFQ_RUN_FX_CONS, SRV_REQ_CONS, types="wfq_run")
